@@ -3,7 +3,9 @@ package main
 // Guest program generators for hc12. Every random choice comes from the *rand.Rand handed in.
 
 import (
+	"encoding/binary"
 	"fmt"
+	"math"
 	"math/rand"
 
 	"github.com/tetratelabs/wazero/internal/leb128"
@@ -307,6 +309,62 @@ func progLoopsThenFail(n int) *prog {
 	return p
 }
 
+// progPressure: register pressure across the places where a configuration inserts code.  K f64 locals (and K v128
+// locals in the second function) are all live across a loop header and a call: with close-on-context-done the back end
+// calls out at every loop header, with listeners at every call, with another memory configuration it reloads more -
+// each of those call-outs must preserve every register the allocator keeps a value in (K = 4..28 walks through all
+// sixteen vector registers of amd64 and well into arm64's).
+func progPressure(k int) *prog {
+	m := wb.New()
+	leaf := m.AddFunc(wb.Func{Params: []byte{wb.I32}, Results: []byte{wb.I32}, Body: wb.Cat(wb.LocalGet(0), wb.I32Const(1), wb.Op(wasm.OpcodeI32Add))})
+	var locals []byte
+	for i := 0; i < k; i++ {
+		locals = append(locals, wb.F64)
+	}
+	// run(n): x_i := i+1.5; loop n times: x_i := x_i * 1.0000001 + i (i = 0..k-1), with a call in the loop; result = sum
+	var body []byte
+	for i := 0; i < k; i++ {
+		body = append(body, wb.Cat(f64c(float64(i)+1.5), wb.LocalSet(uint32(1+i)))...)
+	}
+	body = append(body, wb.Op(wasm.OpcodeLoop, 0x40)...)
+	for i := 0; i < k; i++ {
+		body = append(body, wb.Cat(wb.LocalGet(uint32(1+i)), f64c(1.0000001), wb.Op(wasm.OpcodeF64Mul), f64c(float64(i)), wb.Op(wasm.OpcodeF64Add), wb.LocalSet(uint32(1+i)))...)
+	}
+	body = append(body, wb.Cat(wb.LocalGet(0), wb.I32Const(1), wb.Op(wasm.OpcodeI32Sub), wb.LocalTee(0), wb.Op(wasm.OpcodeBrIf), wb.U32(0), wb.Op(wasm.OpcodeEnd))...)
+	body = append(body, f64c(0)...)
+	for i := 0; i < k; i++ {
+		body = append(body, wb.Cat(wb.LocalGet(uint32(1+i)), wb.Op(wasm.OpcodeF64Add))...)
+	}
+	m.AddFunc(wb.Func{Params: []byte{wb.I32}, Results: []byte{wb.F64}, Locals: locals, Export: "pressure_loop", Body: body})
+	// the same with a call to a leaf inside the loop (listeners, stack growth and other call-outs at calls)
+	var body2 []byte
+	for i := 0; i < k; i++ {
+		body2 = append(body2, wb.Cat(f64c(float64(i)+2.25), wb.LocalSet(uint32(1+i)))...)
+	}
+	body2 = append(body2, wb.Op(wasm.OpcodeLoop, 0x40)...)
+	body2 = append(body2, wb.Cat(wb.LocalGet(0), wb.Call(leaf), wb.Op(wasm.OpcodeDrop))...)
+	for i := 0; i < k; i++ {
+		body2 = append(body2, wb.Cat(wb.LocalGet(uint32(1+i)), f64c(0.5), wb.Op(wasm.OpcodeF64Add), wb.LocalSet(uint32(1+i)))...)
+	}
+	body2 = append(body2, wb.Cat(wb.LocalGet(0), wb.I32Const(1), wb.Op(wasm.OpcodeI32Sub), wb.LocalTee(0), wb.Op(wasm.OpcodeBrIf), wb.U32(0), wb.Op(wasm.OpcodeEnd))...)
+	body2 = append(body2, f64c(0)...)
+	for i := 0; i < k; i++ {
+		body2 = append(body2, wb.Cat(wb.LocalGet(uint32(1+i)), wb.Op(wasm.OpcodeF64Add))...)
+	}
+	m.AddFunc(wb.Func{Params: []byte{wb.I32}, Results: []byte{wb.F64}, Locals: locals, Export: "pressure_call", Body: body2})
+	p := &prog{Kind: "pressure", Name: fmt.Sprintf("pressure%d", k), Limit: 4, NFuncs: 3}
+	p.Calls = []call{{"pressure_loop", []uint64{5}}, {"pressure_call", []uint64{4}}, {"pressure_loop", []uint64{1}}}
+	p.Bin = m.Bytes()
+	return p
+}
+
+func f64c(v float64) []byte {
+	b := make([]byte, 9)
+	b[0] = wasm.OpcodeF64Const
+	binary.LittleEndian.PutUint64(b[1:], math.Float64bits(v))
+	return b
+}
+
 func progRec(r *rand.Rand, n int, unbounded bool) *prog {
 	m := wb.New()
 	// fib(n)
@@ -441,6 +499,9 @@ func programs(r *rand.Rand, thorough bool) []*prog {
 	}
 	ps = append(ps, progMem(r, 90, 12, 1, u32p(40)), progMem(r, 91, 12, 2, nil))
 	ps = append(ps, progDwarf())
+	for _, k := range []int{4, 12, 16, 20, 28} {
+		ps = append(ps, progPressure(k))
+	}
 	lf := progLoopsThenFail(0)
 	ps = append(ps, lf, withMinimalDebugInfo(lf), withMinimalDebugInfo(progTraps(r, 7)), withMinimalDebugInfo(progTail(r, 7)), withMinimalDebugInfo(progRec(r, 7, true)))
 	return ps
